@@ -154,6 +154,26 @@ def opa_slice(op, t):
     return ",".join(dict.fromkeys(c01.SLICE_BASE + [c01.KIND_FEATURE.get(t, t), "%s_assign" % op.lower()]))
 
 
+def opa_value_fxn(op):
+    """name of the private whole-variable dispatch function `fn <name>(sink: Value, source: Value)` of the op-assign file (read from the source)"""
+    src = read_repo("machines/math/src/op_assign/%s_assign.rs" % op.lower())
+    m = re.search(r"^(?:pub )?fn (\w+)\(sink: Value, source: Value\) -> MResult<Box<dyn MechFunction>>", src, re.M)
+    if not m:
+        raise SystemExit("INCONCLUSIVE: whole-variable dispatch function not found in op_assign/%s_assign.rs" % op.lower())
+    return m.group(1)
+
+
+def opa_sym(op, t, name, n, divisor=False):
+    """symbolic operands of the op-assignment harnesses.  Floats are restricted to finite values of magnitude <= 1e6 (and divisors to
+    magnitude >= 1e-6): Kani's NaN/overflow checks on float arithmetic are not what these harnesses are about (element arithmetic is
+    C01); every finite operand pair then has a finite, non-NaN result."""
+    st = sym_array(t, name, n)
+    if t in FLOATS:
+        lo = " && %s[%%d].abs() >= 1.0e-6" % name if divisor else ""
+        st += " kani::assume(%s);" % " && ".join(("%s[%d].is_finite() && %s[%d].abs() <= 1.0e6" % (name, i, name, i)) + (lo % i if lo else "") for i in range(n))
+    return st
+
+
 def opa_pre(op, t, a, b_):
     """precondition under which `a op b` is the exact result in kind t (rust bool expr), and the expected value"""
     sym, chk = OPA[op]
@@ -166,8 +186,8 @@ def gen_opa_value(op, t, sform, shape, srcform, tier):
     """L2: <op>_assign_math_fxn(sink, source) - `x op= s` / `x op= y` on a whole variable"""
     R, C = shape
     N = R * C
-    fxn = "%s_assign_math_fxn" % op.lower()
-    b = [sym_array(t, "old", N)]
+    fxn = opa_value_fxn(op)
+    b = [opa_sym(op, t, "old", N)]
     if sform == "S":
         b.append("let sc = Ref::new(old[0]);")
         b.append("let sink = Value::%s(sc.clone());" % TY_VARIANT[t])
@@ -175,7 +195,7 @@ def gen_opa_value(op, t, sform, shape, srcform, tier):
         b.append("let sc = Ref::new(%s);" % mk_form(sform, t, "old", shape))
         b.append("let sink = %s;" % value_of(sform, t, "sc.clone()"))
     M = 1 if srcform == "S" else N
-    b.append(sym_array(t, "src", M))
+    b.append(opa_sym(op, t, "src", M, divisor=(op == "Div")))
     if srcform == "S":
         b.append("let rc = Ref::new(src[0]);")
         b.append("let source = Value::%s(rc.clone());" % TY_VARIANT[t])
@@ -235,7 +255,7 @@ def gen_opa_index(op, t, sform, shape, mode, tier, agree=False):
     sym, chk = OPA[op]
     struct = {"RS": "1DRS", "RB": "1DRB", "RV": "1DRV", "RVB": "1DRVB", "AS": "2DRAS", "ASB": "2DRASB"}[mode]
     mat = {"RD": "RowDVector", "VD": "DVector", "MD": "DMatrix"}[sform]
-    b = [sym_array(t, "old", N), "let sc = Ref::new(%s);" % mk_form(sform, t, "old", shape)]
+    b = [opa_sym(op, t, "old", N), "let sc = Ref::new(%s);" % mk_form(sform, t, "old", shape)]
     two_d = mode in ("AS", "ASB")
     dim = R if two_d else N
     mask = mode in ("RB", "RVB", "ASB")
@@ -253,11 +273,16 @@ def gen_opa_index(op, t, sform, shape, mode, tier, agree=False):
         b.append("let ixc = Ref::new(DVector::<usize>::from_vec(ix.to_vec()));")
     if vec_src:
         nsrc = dim if mask else K
-        b.append(sym_array(t, "src", nsrc))
+        b.append(opa_sym(op, t, "src", nsrc, divisor=(op == "Div")))
         b.append("let rc = Ref::new(DVector::<%s>::from_vec(src.to_vec()));" % t)
     else:
-        b.append(sym_array(t, "src", 1))
+        nsrc = 1
+        b.append(opa_sym(op, t, "src", 1, divisor=(op == "Div")))
         b.append("let rc = Ref::new(src[0]);")
+    if t in INTS:
+        # every (sink element, source element) pair has an exact result in the kind: whichever pairing a kernel uses, it cannot
+        # overflow or divide by zero, so a wrong pairing shows up as a wrong post-state (VP:wrong-post-state), not as a panic
+        b.append("kani::assume(%s);" % " && ".join("old[%d].%s(src[%d]).is_some()" % (i, chk, j) for i in range(N) for j in range(nsrc)))
     # expected post-state
     b.append("let mut want: [%s; %d] = old;" % (t, N))
     b.append("let mut pre = true;")
@@ -297,7 +322,9 @@ def gen_opa_index(op, t, sform, shape, mode, tier, agree=False):
     b.append("{ let cur = sc.borrow(); assert!(cur.nrows() == %d && cur.ncols() == %d, \"VP:shape-changed\"); assert!(%s, \"VP:wrong-post-state\"); }"
              % (R, C, " && ".join(eq_expr(t, "cur[%d]" % k, "want[%d]" % k) for k in range(N))))
     b.append("kani::cover!(true, \"VP:reached\");")
-    if mask:
+    if mask and agree:
+        b.append("kani::cover!(ix[0] && !ix[%d], \"VP:reached-partial-mask\");" % (dim - 1))
+    elif mask:
         b.append("kani::cover!(%s, \"VP:reached-partial-mask\");" % " && ".join(("ix[%d]" if i % 2 == 0 else "!ix[%d]") % i for i in range(dim)))
     b.append("forget(f); forget(sc); forget(rc); forget(ixc);")
     name = "c04_opa_%s_%s_%s%dx%d_%s%s" % (op.lower(), t.lower(), sform.lower(), R, C, mode.lower(), "_agree" if agree else "")
@@ -479,11 +506,13 @@ def plan(tier, seed):
         tt = ["i64", "u8", "f64", "i16"][(n + seed) % 4]
         if op == "Div":
             tt = ["u8", "f32", "i8", "u8"][(n + seed) % 4]        # 64-bit symbolic-by-symbolic division gets no verdict
+        if op == "Mul":
+            tt = ["i16", "u8", "i8", "i16"][(n + seed) % 4]      # 64-bit / f64 symbolic-by-symbolic multiplication: 900 s timeouts; f32: 130-670 s (measured)
         for k, (sf, sh, srcf) in enumerate((("S", (1, 1), "S"), ("VD", (3, 1), "S"), ("MD", (2, 2), "S"), ("RD", (1, 3), "S"), ("VD", (3, 1), "VD"), ("MD", (2, 2), "MD"), ("RD", (1, 2), "RD"))):
             opa.append(gen_opa_value(op, tt, sf, sh, srcf, "quick" if k in ((n + seed) % 7, (n + seed + 3) % 7) else "thorough"))
         for k, (sf, sh, mode) in enumerate((("VD", (3, 1), "RS"), ("RD", (1, 3), "RB"), ("VD", (3, 1), "RV"), ("MD", (2, 2), "RVB"), ("MD", (2, 2), "AS"), ("MD", (2, 2), "ASB"),
                                             ("MD", (2, 2), "RS"), ("VD", (3, 1), "RB"), ("RD", (1, 3), "RV"), ("VD", (3, 1), "RVB"))):
-            opa.append(gen_opa_index(op, tt, sf, sh, mode, "quick" if k < 6 and (k + n + seed) % 2 == 0 else "thorough"))
+            opa.append(gen_opa_index(op, tt, sf, sh, mode, "quick" if k < 6 else "thorough"))     # ~10 s each (f32 multiplication: ~2 min)
         opa.append(gen_opa_index(op, tt, "VD", (3, 1), "RVB", "quick", agree=True))
     hs += opa
     src = read_repo("src/interpreter/src/stdlib/assign/matrix.rs")
@@ -515,7 +544,10 @@ def plan(tier, seed):
                     "the attempts of the dispatch functions for the 15 element kinds other than the sink's: the extracted bodies keep only the "
                     "`impl_assign_fxn!(.., <kind>, ..)` links of the or_else chain for the kind under test (common.cut_kind_chain: arms of another "
                     "kind cannot match, each failed attempt only builds and drops an error value)",
-                    "op-assignment (+= etc.): machines/math/src/op_assign", "failure atomicity on panicking paths (Kani models panic as abort: the sink "
+                    "op-assignment (+= -= *= /=): the whole-variable dispatch functions (<op>_assign_*_fxn) and the indexed kernels "
+                    "<Op>Assign{1DRS,1DRB,1DRV,1DRVB,2DRAS,2DRASB} are harnessed; the indexed op-assign DISPATCH (op_assign_range_fxn! or_else chains) is outside; "
+                    "operand values: integers such that every (sink element, source element) pair has an exact result, floats finite with magnitude "
+                    "<= 1e6 (divisors >= 1e-6); no 64-bit / f64 multiplication or 64-bit division (no verdict in 900 s)", "failure atomicity on panicking paths (Kani models panic as abort: the sink "
                     "after a panic is not observable)", "source kind conversion (`a kind the matrix cannot hold`) - decided by the statement-level "
                     "code in statements.rs", "histories of several assignments (covered by induction on the arbitrary pre-state)",
                     "subscript_ref()/variable_assign() statement glue"],
